@@ -92,7 +92,7 @@ CHECKS = {
 # sentences appended to the level text (families added in later rounds)
 EXTRA = {
  "C02": " Also: anonymous records written in every permutation against every permutation of the written-out type at 12 unification sites; two written-out types listing the same fields in different orders at 4 site groups (a type error is an allowed answer; otherwise fields are addressed by name); a failing guard that assigns to the matched variable (the examinee is evaluated once); and `==` on the SAME value for 8 element types holding NaN / -0.0 / a number (a copy, an aliased list, contains / index).",
- "C03": " A tracked value that is compared (`==`, contains, index) must be live: read-after-drop is an event of its own.",
+ "C03": " Match arms whose whole body is an exit while owned bindings are alive. A tracked value that is compared (`==`, contains, index) must be live: read-after-drop is an event of its own.",
  "C04": " Twin family: two Rust types with equal printed names, one registered: every request sequence up to length 3 on one package (516 histories). History family: 2-3 packages compiled one after another in a process of its own.",
  "C06": " Further layers: scaling repeaters (L6), self-reference through type constructors (L7), constants in every position (L8), uninhabited / unconstrained bindings (L9), type names with 0-3 arguments in every type position (L10), diagnostics across 2-3 modules behind comment headers in 1-4 byte characters (L11, 47 096 inputs), every directed reference graph on up to three constants / functions (L12, 12 400), the same name twice in every kind of name list (L13).",
  "C07": " Edit kind e1-foreign-receiver: a function filed under the receiver's type whose first parameter has another type, called as a method on a variable.",
@@ -100,10 +100,10 @@ EXTRA = {
  "C11": " Script constants of script-declared aggregate types holding a tracked value; registered closures capturing a 24-byte and a zero-sized tracked value; a constant registered after packages were compiled (AddLater); into_func closures; script-made lists; drops during unwinding; code-page accounting.",
  "C12": " Part C: stack discipline on spawned threads (13 forked scenarios). Part D: all histories up to length 3 (thorough 4) of registry-facing operations (refused / accepted lookups, registration, get_function + call) over two long-lived threads, each in a forked copy of the worker. The 2 x 1 menu includes a compilation whose constant initialiser is a schedule point and a call that keeps a 4096-byte record live across a host call.",
  "C14": " Family copy: 16 constant types as script and registered constants x 13 ways of overwriting a COPY of the constant, the constant read again in the call, in later calls, from another function and from a second package (279 programs).",
- "C16": " Secondary entry points: 2x2 programs over the type-erased script-side operations (contains_owned, index_owned, push, swap, +, len), Rust index and Rust == on two handles of one list.",
+ "C16": " Secondary entry points: 2x2 programs over the type-erased script-side operations (contains_owned, index_owned, push, swap, +, len), Rust index and Rust == on two handles of one list. Third initial configuration: the threads share ONE handle of each list by reference (reference count 1).",
  "C18": " Invalid names include words of identifier characters that are not one identifier token (AS number literals, booleans); library! forms include nested use groups.",
  "C19": " Part A bodies include test blocks calling into recursion cycles of helpers; Part B includes scripts with 2 / 255 / 256 / 257 / 512 rejecting blocks.",
- "C20": " Also: records nested to depth 3 and enums with record payloads (every leaf x every template), and ten registered compound constants read through seven access forms.",
+ "C20": " Also: records nested to depth 3 and enums with record payloads (every leaf x every template), ten registered compound constants read through seven access forms, and the aggregate family over u64 with values above 2^32.",
 }
 
 NOT_YET = {
